@@ -80,13 +80,16 @@ def model_value(x, g, B, p) -> float:
     return float(g @ z + 0.5 * z @ (B @ z))
 
 
-def kernel_input(seed: int, n: Optional[int] = None, pattern: Optional[Tuple] = None, tie: bool = False) -> Dict[str, Any]:
+def kernel_input(seed: int, n: Optional[int] = None, pattern: Optional[Tuple] = None, tie: bool = False,
+                 pinned: bool = False) -> Dict[str, Any]:
     """random kernel input (feasible x, gradient, box, memory); `pattern` fixes, per variable,
     (position in {lb, ub, interior}, gradient sign in {-1, 0, 1}, bound kind in {both, lower, upper, none})"""
     rng = np.random.default_rng(seed)
     r = random.Random(seed)
     n = n or r.randint(1, 10)
     npairs = r.choice([0, 0, 1, 2, 3, 5, 8])
+    if pinned:
+        npairs = max(npairs, 1)
     mats, hist = make_memory(rng, n, min(npairs, 10))
     lb, ub, x, g = np.empty(n), np.empty(n), np.empty(n), np.empty(n)
     for i in range(n):
@@ -129,6 +132,28 @@ def kernel_input(seed: int, n: Optional[int] = None, pattern: Optional[Tuple] = 
             g[j] = r.choice([-1.0, 1.0]) * float(10 ** rng.uniform(-1.5, 0.0))
             lb[j], ub[j] = (-np.inf, np.inf) if r.random() < 0.5 else (-50.0, 50.0)
             x[j] = float(rng.uniform(-1, 1))
+    if pinned and n >= 2:
+        # every moving variable reaches a finite bound long before the minimiser of the model, while one or two
+        # variables with an exactly zero gradient component stay strictly inside the box: the search runs out of
+        # moving variables and the auxiliary vector must still be W^T (x_cp - x)
+        nz = 1 if (n == 2 or r.random() < 0.6) else 2
+        for j in range(n):
+            if j < nz:
+                g[j] = 0.0
+                lb[j], ub[j] = (-5.0, 5.0) if r.random() < 0.7 else (-np.inf, np.inf)
+                x[j] = float(rng.uniform(-1, 1))
+            else:
+                sg = r.choice([-1.0, 1.0])
+                g[j] = sg * float(10 ** rng.uniform(-1.0, 1.0))
+                tj = float(10 ** rng.uniform(-9.0, -6.0))
+                if sg < 0:
+                    ub[j] = float(rng.uniform(0.2, 2.0))
+                    x[j] = ub[j] - abs(g[j]) * tj
+                    lb[j] = -np.inf if r.random() < 0.5 else x[j] - 3.0
+                else:
+                    lb[j] = -float(rng.uniform(0.2, 2.0))
+                    x[j] = lb[j] + abs(g[j]) * tj
+                    ub[j] = np.inf if r.random() < 0.5 else x[j] + 3.0
     return {"x": x, "g": g, "lb": lb, "ub": ub, "mats": mats, "n": n, "npairs": 0 if hist is None else len(hist[0]) - 1}
 
 
